@@ -1,4 +1,5 @@
 import DarkluaModel.C07.Model
+import DarkluaModel.C07.VisitEqs
 /-!
 # C07 — the generic coverage theorem for the visitor
 
@@ -18,6 +19,8 @@ structure Weights where
   /-- per branch (`if` and every `elseif`) -/
   ifx : Nat := 0
   cassign : Nat := 0
+  /-- a block ending in `continue` (`remove_continue` appends a statement to it) -/
+  cont : Nat := 0
 
 variable (W : Weights)
 
@@ -101,7 +104,8 @@ mutual
     | s :: ss => max (kS s + 1) (kSs ss)
   def kL : Last → Nat
     | .ret es => kEs es
-    | _ => 0
+    | .brk => 0
+    | .cont => W.cont
   def kOL : Option Last → Nat
     | none => 0
     | some l => kL l + 1
@@ -137,7 +141,7 @@ def shallowE : Expr → Nat
   | .ifx .. => C.ifx
   | .interp _ => C.interp
   | .cast .. => C.cast + C.tyNode
-  | .inst .. => C.inst + C.tyNode
+  | .inst _ tys => C.inst + C.tyNode * tys.length
   | .fn body => shallowF C body
   | _ => 0
 
@@ -155,22 +159,22 @@ def shallowS : Stmt → Nat
 
 /-! ### the hypotheses on the processor -/
 
-def isCallStmt : Stmt → Bool
-  | .callStmt _ => true
-  | _ => false
+def Block.stmts : Block → List Stmt
+  | .mk ss _ => ss
 
 /-- what the visitor needs to know about a node it is about to descend into -/
 def GoodE (C0 : Census) (e0 e : Expr) : Prop :=
   wfE e = true ∧ countE C0 e = 0 ∧ kE W e ≤ kE W e0 ∧ shallowE C e = 0
 
 def GoodS (C0 : Census) (s0 s : Stmt) : Prop :=
-  wfS s = true ∧ countS C0 s = 0 ∧ kS W s ≤ kS W s0 ∧ shallowS C s = 0 ∧ isCallStmt s = false
+  wfS s = true ∧ countS C0 s = 0 ∧ kS W s ≤ kS W s0 ∧ shallowS C s = 0 ∧ Visitor.isCallStmt s = false
 
 /-- `C` = the census to bring to zero; `C0` = a census the INPUT is assumed to have at zero
-(preserved by the hooks); `W` = the fuel weights the hooks respect. -/
-structure Cover {σ : Type} (P : Processor σ) (C C0 : Census) (W : Weights) : Prop where
-  /-- `continue` is handled by `remove_continue` only, whose state-dependent hooks are outside this theorem -/
-  cont_zero : C.cont = 0
+(preserved by the hooks); `W` = the fuel weights the hooks respect; `okS` = a property of the
+statements of a block established by the block hook (`remove_types` drops type statements there). -/
+structure Cover {σ : Type} (P : Processor σ) (C C0 : Census) (W : Weights) (okS : Stmt → Bool) : Prop where
+  /-- nothing turns a `continue` into something else here: either it is not counted, or the input has none -/
+  cont_ok : C0.cont = 0 → C.cont = 0
   afterBlock_id : ∀ b s, (P.afterBlock b s).1 = b
   scope_id : ∀ b e s, (P.scope b e s).1 = (b, e)
   afterStmtNode_id : ∀ st s, (P.afterStmtNode st s).1 = st
@@ -191,556 +195,11 @@ structure Cover {σ : Type} (P : Processor σ) (C C0 : Census) (W : Weights) : P
   nodePos : ∀ e s, wfE e = true → countE C0 e = 0 → shallowE C e = 0 → GoodE W C C0 e (P.node e s).1
   /-- `process_statement`: the result is well-formed, …; unless it is a call statement the
   kind-specific hook then yields a statement the visitor can descend into -/
-  stmtPos : ∀ st s, wfS st = true → countS C0 st = 0 →
+  stmtPos : ∀ st s, wfS st = true → countS C0 st = 0 → okS st = true →
     wfS (P.stmt st s).1 = true ∧ countS C0 (P.stmt st s).1 = 0 ∧ kS W (P.stmt st s).1 ≤ kS W st ∧
-    (isCallStmt (P.stmt st s).1 = false → ∀ s', GoodS W C C0 st (P.stmtNode (P.stmt st s).1 s').1)
+    (Visitor.isCallStmt (P.stmt st s).1 = false → ∀ s', GoodS W C C0 st (P.stmtNode (P.stmt st s).1 s').1)
   blockPos : ∀ b s, wfB b = true → countB C0 b = 0 →
-    wfB (P.block b s).1 = true ∧ countB C0 (P.block b s).1 = 0 ∧ kB W (P.block b s).1 ≤ kB W b
+    wfB (P.block b s).1 = true ∧ countB C0 (P.block b s).1 = 0 ∧ kB W (P.block b s).1 ≤ kB W b ∧
+    ∀ st ∈ Block.stmts (P.block b s).1, okS st = true
 
-end DarkluaModel.C07
-
-namespace DarkluaModel.C07
-open DarkluaModel.Rules Visitor
-
-section
-variable {σ : Type} (P : Processor σ) (sc : Bool) (C C0 : Census) (W : Weights)
-
-/-- the claims about the element visitors at fuel `n` -/
-structure Level (n : Nat) : Prop where
-  ty : ∀ t s, wfTy t = true → countTy C0 t = 0 → C.tyNode = 0 → kTy W t + 1 ≤ n →
-    countTy C (visitTy P sc n t s).1 = 0
-  expr : ∀ e s, wfE e = true → countE C0 e = 0 → kE W e + 2 ≤ n → countE C (visitExpr P sc n e s).1 = 0
-  pref : ∀ e s, isPrefix e = true → wfE e = true → countE C0 e = 0 → kE W e + 2 ≤ n →
-    countE C (visitPrefix P sc n e s).1 = 0
-  target : ∀ e s, isVariable e = true → wfE e = true → countE C0 e = 0 → kE W e + 2 ≤ n →
-    countE C (visitTarget P sc n e s).1 = 0
-  entry : ∀ e s, wfEntry e = true → countEntry C0 e = 0 → kEntry W e + 1 ≤ n →
-    countEntry C (visitEntry P sc n e s).1 = 0
-  seg : ∀ e s, wfSeg e = true → countSeg C0 e = 0 → kSeg W e + 1 ≤ n → countSeg C (visitSeg P sc n e s).1 = 0
-  node : ∀ e s, (∀ s', wfE (P.node e s').1 = true ∧ countE C0 (P.node e s').1 = 0 ∧
-      kE W (P.node e s').1 + 1 ≤ n ∧ shallowE C (P.node e s').1 = 0) →
-    countE C (visitNode P sc n e s).1 = 0
-  fnbody : ∀ hs body s, wfF body = true → countF C0 body = 0 → shallowF C body = 0 → kF W body + 1 ≤ n →
-    countF C (visitFnBody P sc n hs body s).1 = 0
-  stmt : ∀ st s, wfS st = true → countS C0 st = 0 → kS W st + 1 ≤ n → countS C (visitStmt P sc n st s).1 = 0
-  last : ∀ l s, wfL l = true → countL C0 l = 0 → kL W l + 1 ≤ n → countL C (visitLast P sc n l s).1 = 0
-  block : ∀ pushes b s, wfB b = true → countB C0 b = 0 → kB W b + 1 ≤ n →
-    countB C (visitBlock P sc n pushes b s).1 = 0
-
-/-- the claims about the list / option visitors at fuel `n` -/
-structure Lists (n : Nat) : Prop where
-  tys : ∀ ts s, wfTys ts = true → countTys C0 ts = 0 → C.tyNode = 0 → kTys W ts ≤ n →
-    countTys C (mapS (visitTy P sc n) ts s).1 = 0
-  oty : ∀ t s, wfOTy t = true → countOTy C0 t = 0 → C.tyNode * optCount t = 0 → kOTy W t ≤ n →
-    countOTy C (optS (visitTy P sc n) t s).1 = 0
-  exprs : ∀ es s, wfEs es = true → countEs C0 es = 0 → kEs W es ≤ n →
-    countEs C (mapS (visitExpr P sc n) es s).1 = 0
-  oexpr : ∀ e s, wfOE e = true → countOE C0 e = 0 → kOE W e ≤ n → countOE C (optS (visitExpr P sc n) e s).1 = 0
-  args : ∀ k es s, argsOk k es = true → k ≠ .tuple → wfEs es = true → countEs C0 es = 0 → kEs W es ≤ n →
-    countEs C (mapS (visitNode P sc n) es s).1 = 0
-  targets : ∀ es s, wfTargets es = true → countEs C0 es = 0 → kEs W es ≤ n →
-    countEs C (mapS (visitTarget P sc n) es s).1 = 0
-  entries : ∀ es s, wfEntries es = true → countEntries C0 es = 0 → kEntries W es ≤ n →
-    countEntries C (mapS (visitEntry P sc n) es s).1 = 0
-  segs : ∀ es s, wfSegs es = true → countSegs C0 es = 0 → kSegs W es ≤ n →
-    countSegs C (mapS (visitSeg P sc n) es s).1 = 0
-  pairs : ∀ ps s, wfPairs ps = true → countPairs C0 ps = 0 → kPairs W ps ≤ n →
-    countPairs C (mapS (fun (p : Expr × Expr) st =>
-      (((visitExpr P sc n p.1 st).1, (visitExpr P sc n p.2 (visitExpr P sc n p.1 st).2).1),
-        (visitExpr P sc n p.2 (visitExpr P sc n p.1 st).2).2)) ps s).1 = 0
-  tnames : ∀ ns s, wfTNs ns = true → countTNs C0 ns = 0 → C.tyNode * typedCount ns = 0 → kTNs W ns ≤ n →
-    countTNs C (mapS (tnameTy (visitTy P sc n)) ns s).1 = 0
-  tname : ∀ t s, wfTN t = true → countTN C0 t = 0 → C.tyNode * typedCount [t] = 0 → kTN W t ≤ n →
-    countTN C (tnameTy (visitTy P sc n) t s).1 = 0
-  branches : ∀ bs s, wfBranches bs = true → countBranches C0 bs = 0 → kBranches W bs ≤ n →
-    countBranches C (mapS (fun (p : Expr × Block) st =>
-      (((visitExpr P sc n p.1 st).1,
-          (visitBlock P sc n true p.2 (P.scope p.2 none (visitExpr P sc n p.1 st).2).2).1),
-        (visitBlock P sc n true p.2 (P.scope p.2 none (visitExpr P sc n p.1 st).2).2).2)) bs s).1 = 0
-  oelse : ∀ b s, wfOB b = true → countOB C0 b = 0 → kOB W b ≤ n →
-    countOB C (optS (fun blk st => visitBlock P sc n true blk (P.scope blk none st).2) b s).1 = 0
-  stmts : ∀ ss s, wfSs ss = true → countSs C0 ss = 0 → kSs W ss ≤ n →
-    countSs C (mapS (visitStmt P sc n) ss s).1 = 0
-  olast : ∀ l s, wfOL l = true → countOL C0 l = 0 → kOL W l ≤ n → countOL C (optS (visitLast P sc n) l s).1 = 0
-
-theorem leaf_or (e : Expr) :
-    (e = .nil ∨ e = .true ∨ e = .false ∨ e = .vararg) ∨ (e ≠ .nil ∧ e ≠ .true ∧ e ≠ .false ∧ e ≠ .vararg) := by
-  cases e <;> simp
-
-set_option linter.unusedSimpArgs false
-
-theorem succ_node (h : Cover P C C0 W) (n : Nat) (L : Level P sc C C0 W n) (LL : Lists P sc C C0 W n) :
-    ∀ e s, (∀ s', wfE (P.node e s').1 = true ∧ countE C0 (P.node e s').1 = 0 ∧
-      kE W (P.node e s').1 + 1 ≤ n + 1 ∧ shallowE C (P.node e s').1 = 0) →
-    countE C (visitNode P sc (n + 1) e s).1 = 0 := by
-  intro e s hg
-  rcases leaf_or e with hl | ⟨h1, h2, h3, h4⟩
-  · rcases hl with rfl | rfl | rfl | rfl <;> simp [visitNode, countE]
-  · rw [visitNode]
-    · specialize hg s
-      generalize P.node e s = q at hg
-      obtain ⟨e1, s1⟩ := q
-      simp only [] at hg ⊢
-      obtain ⟨hw, hc, hk, hs⟩ := hg
-      have Lexpr := L.expr
-      have Lpref := L.pref
-      have Lfn := L.fnbody
-      have Lty := L.ty
-      have Lexprs := LL.exprs
-      have Largs := LL.args
-      have Lentries := LL.entries
-      have Lsegs := LL.segs
-      have Lpairs := LL.pairs
-      have Ltys := LL.tys
-      cases e1 with
-      | call f m k args =>
-        simp only [wfE, Bool.and_eq_true, countE, kE, shallowE, Nat.add_eq_zero_iff, Nat.max_le] at hw hc hk hs
-        cases k <;> (simp only [h.afterNode_id, countE]; grind)
-      | _ =>
-        simp only [wfE, Bool.and_eq_true, countE, kE, shallowE, Nat.add_eq_zero_iff, Nat.max_le] at hw hc hk hs
-        simp only [h.afterNode_id, countE]
-        all_goals grind
-    · exact h1
-    · exact h2
-    · exact h3
-    · exact h4
-
-theorem succ_expr (h : Cover P C C0 W) (n : Nat) (L : Level P sc C C0 W n) :
-    ∀ e s, wfE e = true → countE C0 e = 0 → kE W e + 2 ≤ n + 1 →
-      countE C (visitExpr P sc (n + 1) e s).1 = 0 := by
-  intro e s hw hc hk
-  simp only [visitExpr]
-  apply L.node
-  intro s'
-  obtain ⟨a, b, c, d⟩ := h.exprPos e s s' hw hc
-  have c' : kE W (P.node (P.expr e s).1 s').1 + 1 ≤ n := by omega
-  exact ⟨a, b, c', d⟩
-
-theorem succ_pref (h : Cover P C C0 W) (n : Nat) (L : Level P sc C C0 W n) :
-    ∀ e s, isPrefix e = true → wfE e = true → countE C0 e = 0 → kE W e + 2 ≤ n + 1 →
-      countE C (visitPrefix P sc (n + 1) e s).1 = 0 := by
-  intro e s hp hw hc hk
-  simp only [visitPrefix]
-  apply L.node
-  intro s'
-  obtain ⟨a, b, c, d⟩ := h.prefPos e s s' hp hw hc
-  have c' : kE W (P.node (P.pref e s).1 s').1 + 1 ≤ n := by omega
-  exact ⟨a, b, c', d⟩
-
-theorem shallow_variable (e : Expr) (hv : isVariable e = true) : shallowE C e = 0 := by
-  cases e <;> simp_all [isVariable, shallowE]
-
-theorem succ_target (h : Cover P C C0 W) (n : Nat) (L : Level P sc C C0 W n) :
-    ∀ e s, isVariable e = true → wfE e = true → countE C0 e = 0 → kE W e + 2 ≤ n + 1 →
-      countE C (visitTarget P sc (n + 1) e s).1 = 0 := by
-  intro e s hp hw hc hk
-  simp only [visitTarget]
-  apply L.node
-  intro s'
-  have ht := h.target_id e s
-  obtain ⟨a, b, c, d⟩ := h.nodePos (P.target e s).1 s' (by rw [ht]; exact hw) (by rw [ht]; exact hc)
-    (by rw [ht]; exact shallow_variable C e hp)
-  rw [ht] at c
-  have c' : kE W (P.node (P.target e s).1 s').1 + 1 ≤ n := by rw [ht]; omega
-  exact ⟨a, b, c', d⟩
-
-theorem succ_entry (n : Nat) (L : Level P sc C C0 W n) :
-    ∀ e s, wfEntry e = true → countEntry C0 e = 0 → kEntry W e + 1 ≤ n + 1 →
-      countEntry C (visitEntry P sc (n + 1) e s).1 = 0 := by
-  intro e s hw hc hk
-  have Lexpr := L.expr
-  cases e <;>
-    (simp only [wfEntry, Bool.and_eq_true, countEntry, kEntry, Nat.add_eq_zero_iff, Nat.max_le] at hw hc hk
-     simp only [visitEntry, countEntry]
-     grind)
-
-theorem succ_seg (n : Nat) (L : Level P sc C C0 W n) :
-    ∀ e s, wfSeg e = true → countSeg C0 e = 0 → kSeg W e + 1 ≤ n + 1 →
-      countSeg C (visitSeg P sc (n + 1) e s).1 = 0 := by
-  intro e s hw hc hk
-  have Lexpr := L.expr
-  cases e <;>
-    (simp only [wfSeg, countSeg, kSeg] at hw hc hk
-     simp only [visitSeg, countSeg]
-     all_goals grind)
-
-theorem succ_ty (h : Cover P C C0 W) (n : Nat) (L : Level P sc C C0 W n) (LL : Lists P sc C C0 W n) :
-    ∀ t s, wfTy t = true → countTy C0 t = 0 → C.tyNode = 0 → kTy W t + 1 ≤ n + 1 →
-      countTy C (visitTy P sc (n + 1) t s).1 = 0 := by
-  intro t s hw hc h0 hk
-  rw [visitTy]
-  have ht := h.ty_id t s
-  generalize P.ty t s = q at ht
-  obtain ⟨t1, s1⟩ := q
-  simp only [] at ht ⊢
-  subst ht
-  have Lexpr := L.expr
-  have Ltys := LL.tys
-  cases t1 <;>
-    (simp only [wfTy, countTy, kTy, Nat.add_eq_zero_iff] at hw hc hk
-     simp only [countTy]
-     grind)
-
-theorem succ_last (h : Cover P C C0 W) (n : Nat) (LL : Lists P sc C C0 W n) :
-    ∀ l s, wfL l = true → countL C0 l = 0 → kL W l + 1 ≤ n + 1 →
-      countL C (visitLast P sc (n + 1) l s).1 = 0 := by
-  intro l s hw hc hk
-  rw [visitLast]
-  have ht := h.last_id l s
-  generalize P.last l s = q at ht
-  obtain ⟨l1, s1⟩ := q
-  simp only [] at ht ⊢
-  subst ht
-  have Lexprs := LL.exprs
-  have hcont := h.cont_zero
-  cases l1 <;>
-    (simp only [wfL, countL, kL] at hw hc hk
-     simp only [countL]
-     all_goals grind)
-
-theorem succ_block (h : Cover P C C0 W) (n : Nat) (LL : Lists P sc C C0 W n) :
-    ∀ pushes b s, wfB b = true → countB C0 b = 0 → kB W b + 1 ≤ n + 1 →
-      countB C (visitBlock P sc (n + 1) pushes b s).1 = 0 := by
-  intro pushes b s hw hc hk
-  rw [visitBlock]
-  generalize (if (sc && pushes) = true then P.push s else s) = s0
-  obtain ⟨a, b', c⟩ := h.blockPos b s0 hw hc
-  generalize P.block b s0 = q at a b' c
-  obtain ⟨b1, s1⟩ := q
-  simp only [] at a b' c ⊢
-  have Lstmts := LL.stmts
-  have Lolast := LL.olast
-  cases b1 with
-  | mk stmts last =>
-    simp only [wfB, Bool.and_eq_true, countB, kB, Nat.add_eq_zero_iff, Nat.max_le] at a b' c hk
-    simp only [h.afterBlock_id, countB]
-    grind
-
-theorem count_tnameInsert (f : String → σ → String × σ) :
-    ∀ ns s, countTNs C (mapS (tnameInsert f) ns s).1 = countTNs C ns := by
-  intro ns
-  induction ns with
-  | nil => intro s; simp [mapS, countTNs]
-  | cons t ts ih =>
-    intro s
-    cases t with
-    | mk n ty => simp only [mapS, tnameInsert, countTNs, countTN, ih]
-
-theorem tnameInsert_props (f : String → σ → String × σ) :
-    ∀ ns s, wfTNs (mapS (tnameInsert f) ns s).1 = wfTNs ns ∧
-      typedCount (mapS (tnameInsert f) ns s).1 = typedCount ns ∧
-      kTNs W (mapS (tnameInsert f) ns s).1 = kTNs W ns := by
-  intro ns
-  induction ns with
-  | nil => intro s; simp [mapS]
-  | cons t ts ih =>
-    intro s
-    cases t with
-    | mk n ty =>
-      cases ty <;> simp only [mapS, tnameInsert, wfTNs, wfTN, typedCount, kTNs, kTN, ih, and_self]
-
-theorem tnameInsert_single (f : String → σ → String × σ) (t : TName) (s : σ) :
-    wfTN (tnameInsert f t s).1 = wfTN t ∧ typedCount [(tnameInsert f t s).1] = typedCount [t] ∧
-      kTN W (tnameInsert f t s).1 = kTN W t ∧ ∀ C : Census, countTN C (tnameInsert f t s).1 = countTN C t := by
-  cases t with
-  | mk n ty => cases ty <;> simp [tnameInsert, wfTN, typedCount, kTN, countTN]
-
-theorem count_insertLocals (h : Cover P C C0 W) :
-    ∀ ns vs s, countTNs C (insertLocals P ns vs s).1.1 = countTNs C ns ∧
-      countEs C (insertLocals P ns vs s).1.2 = countEs C vs := by
-  intro ns
-  induction ns with
-  | nil => intro vs s; simp [insertLocals]
-  | cons t ts ih =>
-    intro vs s
-    cases t with
-    | mk n ty =>
-      cases vs with
-      | nil =>
-        simp only [insertLocals, countTNs, countTN, countEs, ih, and_self]
-      | cons v vs =>
-        have h1 := h.insertLocal_id n (some v) s
-        simp only [insertLocals, countTNs, countTN, countEs, h1, Option.getD_some, ih, and_self]
-
-theorem succ_fnbody (h : Cover P C C0 W) (n : Nat) (L : Level P sc C C0 W n) (LL : Lists P sc C C0 W n) :
-    ∀ hs body s, wfF body = true → countF C0 body = 0 → shallowF C body = 0 → kF W body + 1 ≤ n + 1 →
-      countF C (visitFnBody P sc (n + 1) hs body s).1 = 0 := by
-  intro hs body s hw hc hsh hk
-  have Lblock := L.block
-  have Ltnames := LL.tnames
-  have Loty := LL.oty
-  have Hins := count_tnameInsert (σ := σ) C
-  cases body with
-  | mk params variadic varTy ret generics attrs blk =>
-    simp only [wfF, Bool.and_eq_true, countF, kF, shallowF, Nat.add_eq_zero_iff, Nat.max_le, Nat.mul_eq_zero] at hw hc hsh hk
-    rw [visitFnBody]
-    cases sc <;>
-      (simp only [h.scope_id, h.attrs_id, countF, Hins, if_true, if_false, Bool.false_eq_true]
-       grind)
-
-theorem shallow_call (e : Expr) (hv : isCall e = true) : shallowE C e = 0 := by
-  cases e <;> simp_all [isCall, shallowE]
-
-theorem succ_stmt (h : Cover P C C0 W) (n : Nat) (L : Level P sc C C0 W n) (LL : Lists P sc C C0 W n) :
-    ∀ st s, wfS st = true → countS C0 st = 0 → kS W st + 1 ≤ n + 1 →
-      countS C (visitStmt P sc (n + 1) st s).1 = 0 := by
-  intro st s hw hc hk
-  have Lexpr := L.expr
-  have Ltarget := L.target
-  have Lblock := L.block
-  have Lfn := L.fnbody
-  have Lty := L.ty
-  have Lnode := L.node
-  have Lexprs := LL.exprs
-  have Ltargets := LL.targets
-  have Ltnames := LL.tnames
-  have Loty := LL.oty
-  have Loexpr := LL.oexpr
-  have Hins := count_tnameInsert (σ := σ) C
-  have Hins0 := count_tnameInsert (σ := σ) C0
-  have Hinsp := tnameInsert_props (σ := σ) W
-  have Hins1 := tnameInsert_single (σ := σ) W
-  have Ltname := LL.tname
-  have Lbranches := LL.branches
-  have Loelse := LL.oelse
-  have Hloc := count_insertLocals P C C0 W h
-  have hA := h.afterStmtNode_id
-  have hSc := h.scope_id
-  have hAt := h.attrs_id
-  have hIF := h.insertLocalFn_id
-  have hNode := h.nodePos
-  obtain ⟨a, b, c, d⟩ := h.stmtPos st s hw hc
-  clear L LL h
-  obtain ⟨pblock, pafterBlock, pscope, pstmt, pstmtNode, pafterStmtNode, plast, pexpr, ppref, ptarget, pnode,
-    pafterNode, pty, pattrs, ppush, ppop, pinsert, pinsertSelf, pinsertLocal, pinsertLocalFn⟩ := P
-  rw [visitStmt]
-  dsimp only at a b c d hA hSc hAt hIF hNode Hloc ⊢
-  generalize pstmt st s = q at a b c d ⊢
-  obtain ⟨st1, s1⟩ := q
-  dsimp only at a b c d ⊢
-  split
-  · rename_i cl
-    simp only [wfS, Bool.and_eq_true, countS, kS] at a b c
-    simp only [countS]
-    apply Lnode
-    intro s'
-    dsimp only
-    obtain ⟨x, y, z, w⟩ := hNode cl s' a.2 b (shallow_call C cl a.1)
-    exact ⟨x, y, by omega, w⟩
-  · rename_i hne
-    have hcs : isCallStmt st1 = false := by
-      cases st1 <;> simp_all [isCallStmt]
-    have d' := d hcs s1
-    generalize pstmtNode st1 s1 = q2 at d' ⊢
-    obtain ⟨st2, s2⟩ := q2
-    obtain ⟨gw, gc, gk, gs, gn⟩ := d'
-    dsimp only at gw gc gk gs gn ⊢
-    cases st2 with
-    | callStmt c => simp [isCallStmt] at gn
-    | ifs branches els =>
-      simp only [wfS, Bool.and_eq_true, countS, kS, shallowS, Nat.add_eq_zero_iff, Nat.max_le] at gw gc gk gs
-      simp only [hSc, hA, countS]
-      grind
-    | function name m body =>
-      simp only [wfS, Bool.and_eq_true, countS, kS, shallowS, Nat.add_eq_zero_iff, Nat.max_le] at gw gc gk gs
-      cases name with
-      | nil => simp at gw
-      | cons root path =>
-        cases sc
-        · cases body
-          simp only [wfF, countF, kF, shallowF, Bool.and_eq_true, Nat.add_eq_zero_iff, Nat.max_le, Nat.mul_eq_zero] at gw gc gk gs
-          simp only [hSc, hA, hAt, countS, countF, if_true, if_false, Bool.false_eq_true]
-          grind
-        · simp only [hSc, hA, hAt, countS, if_true, if_false, Bool.false_eq_true]
-          grind
-    | typeFn ex name body =>
-      simp only [wfS, Bool.and_eq_true, countS, kS, shallowS, Nat.add_eq_zero_iff, Nat.max_le] at gw gc gk gs
-      cases body
-      simp only [wfF, countF, kF, shallowF, Bool.and_eq_true, Nat.add_eq_zero_iff, Nat.max_le, Nat.mul_eq_zero, List.isEmpty_iff] at gw gc gk gs
-      simp only [hSc, hA, hAt, countS, countF, if_true, if_false, Bool.false_eq_true]
-      grind
-    | _ =>
-      simp only [wfS, Bool.and_eq_true, countS, kS, shallowS, Nat.add_eq_zero_iff, Nat.max_le] at gw gc gk gs
-      cases sc <;>
-        (simp only [hSc, hA, hIF, countS, Hins, if_true, if_false, Bool.false_eq_true]
-         grind)
-
-theorem args_single (k : ArgKind) (es : List Expr) (ha : argsOk k es = true) (hk : k ≠ .tuple) :
-    ∃ e, es = [e] ∧ shallowE C e = 0 := by
-  cases k with
-  | tuple => exact absurd rfl hk
-  | str =>
-    match es, ha with
-    | [.str b], _ => exact ⟨_, rfl, rfl⟩
-  | tbl =>
-    match es, ha with
-    | [.table b], _ => exact ⟨_, rfl, rfl⟩
-
-theorem lists_of_level (h : Cover P C C0 W) (n : Nat) (L : Level P sc C C0 W n) : Lists P sc C C0 W n := by
-  have Lty := L.ty
-  have Lexpr := L.expr
-  have Ltarget := L.target
-  have Lentry := L.entry
-  have Lseg := L.seg
-  have Lstmt := L.stmt
-  have Llast := L.last
-  have Lblock := L.block
-  have hSc := h.scope_id
-  refine ⟨?_, ?_, ?_, ?_, ?_, ?_, ?_, ?_, ?_, ?_, ?_, ?_, ?_, ?_, ?_⟩
-  · intro ts
-    induction ts with
-    | nil => intro s; simp [mapS, countTys]
-    | cons t ts ih =>
-      intro s hw hc h0 hk
-      simp only [wfTys, countTys, kTys, Bool.and_eq_true, Nat.add_eq_zero_iff, Nat.max_le] at hw hc hk
-      simp only [mapS, countTys]
-      grind
-  · intro t s hw hc h0 hk
-    cases t with
-    | none => simp [optS, countOTy]
-    | some t =>
-      simp only [wfOTy, countOTy, kOTy, optCount, Nat.mul_one] at hw hc hk h0
-      simp only [optS, countOTy]
-      grind
-  · intro es
-    induction es with
-    | nil => intro s; simp [mapS, countEs]
-    | cons t ts ih =>
-      intro s hw hc hk
-      simp only [wfEs, countEs, kEs, Bool.and_eq_true, Nat.add_eq_zero_iff, Nat.max_le] at hw hc hk
-      simp only [mapS, countEs]
-      grind
-  · intro t s hw hc hk
-    cases t with
-    | none => simp [optS, countOE]
-    | some t =>
-      simp only [wfOE, countOE, kOE] at hw hc hk
-      simp only [optS, countOE]
-      grind
-  · intro k es s ha hk hw hc hkk
-    obtain ⟨e, rfl, hsh⟩ := args_single C k es ha hk
-    simp only [wfEs, countEs, kEs, Bool.and_eq_true, Nat.add_eq_zero_iff, Nat.max_le] at hw hc hkk
-    simp only [mapS, countEs, Nat.add_zero]
-    apply L.node
-    intro s'
-    obtain ⟨x, y, z, w⟩ := h.nodePos e s' hw.1 hc.1 hsh
-    exact ⟨x, y, by omega, w⟩
-  · intro es
-    induction es with
-    | nil => intro s; simp [mapS, countEs]
-    | cons t ts ih =>
-      intro s hw hc hk
-      simp only [wfTargets, countEs, kEs, Bool.and_eq_true, Nat.add_eq_zero_iff, Nat.max_le] at hw hc hk
-      simp only [mapS, countEs]
-      grind
-  · intro es
-    induction es with
-    | nil => intro s; simp [mapS, countEntries]
-    | cons t ts ih =>
-      intro s hw hc hk
-      simp only [wfEntries, countEntries, kEntries, Bool.and_eq_true, Nat.add_eq_zero_iff, Nat.max_le] at hw hc hk
-      simp only [mapS, countEntries]
-      grind
-  · intro es
-    induction es with
-    | nil => intro s; simp [mapS, countSegs]
-    | cons t ts ih =>
-      intro s hw hc hk
-      simp only [wfSegs, countSegs, kSegs, Bool.and_eq_true, Nat.add_eq_zero_iff, Nat.max_le] at hw hc hk
-      simp only [mapS, countSegs]
-      grind
-  · intro es
-    induction es with
-    | nil => intro s; simp [mapS, countPairs]
-    | cons t ts ih =>
-      intro s hw hc hk
-      obtain ⟨a, b⟩ := t
-      simp only [wfPairs, countPairs, kPairs, Bool.and_eq_true, Nat.add_eq_zero_iff, Nat.max_le] at hw hc hk
-      simp only [mapS, countPairs]
-      grind
-  · intro es
-    induction es with
-    | nil => intro s; simp [mapS, countTNs]
-    | cons t ts ih =>
-      intro s hw hc h0 hk
-      cases t with
-      | mk nm ty =>
-        cases ty with
-        | none =>
-          simp only [wfTNs, wfTN, wfOTy, countTNs, countTN, countOTy, kTNs, kTN, kOTy, typedCount, Bool.and_eq_true,
-            Nat.add_eq_zero_iff, Nat.max_le] at hw hc hk h0
-          simp only [mapS, tnameTy, optS, countTNs, countTN, countOTy]
-          grind
-        | some ty =>
-          simp only [wfTNs, wfTN, wfOTy, countTNs, countTN, countOTy, kTNs, kTN, kOTy, typedCount, Bool.and_eq_true,
-            Nat.add_eq_zero_iff, Nat.max_le, Nat.mul_eq_zero] at hw hc hk h0
-          simp only [mapS, tnameTy, optS, countTNs, countTN, countOTy]
-          grind
-  · intro t s hw hc h0 hk
-    cases t with
-    | mk nm ty =>
-      cases ty with
-      | none => simp [tnameTy, optS, countTN, countOTy]
-      | some ty =>
-        simp only [wfTN, wfOTy, countTN, countOTy, kTN, kOTy, typedCount, Nat.mul_eq_zero] at hw hc hk h0
-        simp only [tnameTy, optS, countTN, countOTy]
-        grind
-  · intro es
-    induction es with
-    | nil => intro s; simp [mapS, countBranches]
-    | cons t ts ih =>
-      intro s hw hc hk
-      obtain ⟨a, b⟩ := t
-      simp only [wfBranches, countBranches, kBranches, Bool.and_eq_true, Nat.add_eq_zero_iff, Nat.max_le] at hw hc hk
-      simp only [mapS, countBranches]
-      grind
-  · intro t s hw hc hk
-    cases t with
-    | none => simp [optS, countOB]
-    | some t =>
-      simp only [wfOB, countOB, kOB] at hw hc hk
-      simp only [optS, countOB]
-      grind
-  · intro es
-    induction es with
-    | nil => intro s; simp [mapS, countSs]
-    | cons t ts ih =>
-      intro s hw hc hk
-      simp only [wfSs, countSs, kSs, Bool.and_eq_true, Nat.add_eq_zero_iff, Nat.max_le] at hw hc hk
-      simp only [mapS, countSs]
-      grind
-  · intro t s hw hc hk
-    cases t with
-    | none => simp [optS, countOL]
-    | some t =>
-      simp only [wfOL, countOL, kOL] at hw hc hk
-      simp only [optS, countOL]
-      grind
-
-theorem level_zero (h : Cover P C C0 W) : Level P sc C C0 W 0 := by
-  refine ⟨?_, ?_, ?_, ?_, ?_, ?_, ?_, ?_, ?_, ?_, ?_⟩
-  all_goals (intros; first | omega | skip)
-  -- `node`: the hypothesis on the hook's result asks for positive fuel
-  rename_i e s hg
-  have := (hg s).2.2.1
-  omega
-
-theorem level_all (h : Cover P C C0 W) : ∀ n, Level P sc C C0 W n := by
-  intro n
-  induction n with
-  | zero => exact level_zero P sc C C0 W h
-  | succ n ih =>
-    have LL := lists_of_level P sc C C0 W h n ih
-    exact ⟨succ_ty P sc C C0 W h n ih LL, succ_expr P sc C C0 W h n ih, succ_pref P sc C C0 W h n ih,
-      succ_target P sc C C0 W h n ih, succ_entry P sc C C0 W n ih, succ_seg P sc C C0 W n ih,
-      succ_node P sc C C0 W h n ih LL, succ_fnbody P sc C C0 W h n ih LL, succ_stmt P sc C C0 W h n ih LL,
-      succ_last P sc C C0 W h n LL, succ_block P sc C C0 W h n LL⟩
-
-/-- **Coverage.** A processor satisfying `Cover` brings the census `C` to zero on every
-well-formed block whose `C0` census is zero, provided the fuel is at least the block's need. -/
-theorem cover_block (h : Cover P C C0 W) (n : Nat) (b : Block) (s : σ) (hw : wfB b = true)
-    (hc : countB C0 b = 0) (hfuel : kB W b + 1 ≤ n) :
-    countB C (visitBlock P sc n true b s).1 = 0 :=
-  (level_all P sc C C0 W h n).block true b s hw hc hfuel
-end
 end DarkluaModel.C07
